@@ -272,7 +272,9 @@ def typestate(ctx):
     names = [f["name"] for f in facts.struct_fields(conn.HC)]
     for lf in ln:
         r = lf.ret()
-        ok = r[0] == "agg" and r[1] == conn.HC and r[3][names.index("state")][0] == "agg" and r[3][names.index("state")][2] != "RequestReady"
+        from .util import struct_field_value as _sfv
+        st0 = look(_sfv(facts, r, "state")) if r[0] == "agg" and r[1] == conn.HC and _sfv(facts, r, "state") is not None else None
+        ok = st0 is not None and st0[0] == "agg" and st0[2] != "RequestReady"
         all_ok = all_ok and ok
         ctx.ob("R03.4", "new|not-RequestReady", ok, "a new connection does not start in RequestReady", fnew.loc(0))
     # nobody outside the impl writes the two fields
@@ -286,7 +288,8 @@ def typestate(ctx):
                 ok = bool(lc)
                 for lf in lc:
                     r = look(lf.ret())
-                    ok = ok and r[0] == "agg" and r[1] == conn.HC and look(r[3][names.index("state")])[0] == "agg" and look(r[3][names.index("state")])[2] != "RequestReady"
+                    st1 = look(_sfv(facts, r, "state")) if r[0] == "agg" and r[1] == conn.HC and _sfv(facts, r, "state") is not None else None
+                    ok = ok and st1 is not None and st1[0] == "agg" and st1[2] != "RequestReady"
                 ctx.ob("R03.4", "constructor|%s|not-RequestReady" % w[0].split("::")[-1], ok, "%s, a constructor called from outside the impl, does not build a connection in RequestReady" % w[0], w[2])
             all_ok = all_ok and ok
             if not ok:
